@@ -266,6 +266,8 @@ func checkC02(c *hx.Ctx) {
 		}
 	})
 	c02TwoVersions(c)
+	c02CompetitorOutsideItsWindow(c)
+	c.Floor("competitions_with_an_early_competitor_outside_its_window", 30)
 	c02ThroughObserver(c)
 	c.Floor("competitions_through_the_observer", 30)
 	c.Floor("two_version_competitions", 100)
@@ -374,5 +376,55 @@ func c02TwoVersions(c *hx.Ctx) {
 			c.Count("two_version_competitions")
 			c.Distinct("2v|" + histString(ops))
 		}
+	})
+}
+
+// c02CompetitorOutsideItsWindow: the earliest operation for a commitment is genuinely signed but anchored outside its anchoring
+// window (declared, or the default one of an operation that names anchorFrom only): it is not a valid competitor, the next
+// one in anchoring order wins - whatever the store order.
+func c02CompetitorOutsideItsWindow(c *hx.Ctx) {
+	n := c.N(60, 900)
+	root := c.Rng("outside-window")
+	seeds := make([]uint64, n)
+	for i := range seeds {
+		seeds[i] = root.U64()
+	}
+	hx.Parallel(n, 16, func(i int) {
+		r := hx.NewRng(seeds[i], "c02w")
+		p := hx.BaseProtocol()
+		D := uint64(p.MaxOperationTimeDelta)
+		pc := hx.NewClient(hx.NewVersion(p, hx.VersionOpts{ParserOpts: hx.StrictResolution()}))
+		u := NewUniverse(r.Split("u"), ref.SHA256, p, []string{hx.Pick(r, ref.KeyTypes), "P-256"})
+		u.BuildAlphabet(1000, 1010) // uW / rW / dW: [1000,1010]; uWd / rWd / dWd: anchorFrom 1000 only -> [1000, 1000+D]
+		var early, late string
+		var tEarly uint64
+		switch i % 6 {
+		case 0:
+			early, late, tEarly = "dWd", "r01", 1000+D+uint64(1+r.Intn(500))
+		case 1:
+			early, late, tEarly = "uWd", "u02", 1000+D+uint64(1+r.Intn(500))
+		case 2:
+			early, late, tEarly = "rWd", "rB", 1000+D+uint64(1+r.Intn(500))
+		case 3:
+			early, late, tEarly = "dW", "r01", 1011+uint64(r.Intn(50))
+		case 4:
+			early, late, tEarly = "uW", "u02", 999-uint64(r.Intn(50))
+		default:
+			early, late, tEarly = "dWd", "r01", 999-uint64(r.Intn(50)) // not yet open
+		}
+		ops := []*ref.Op{Place(u.Ops["C"], 900, uint64(r.Intn(5)), "refC", 0), Place(u.Ops[early], tEarly, uint64(r.Intn(5)), "refE", 0), Place(u.Ops[late], tEarly+uint64(1+r.Intn(300)), uint64(r.Intn(5)), "refL", 0)}
+		c.Eval()
+		st, merr := ref.Resolve(ops, ref.ResolveOpts{})
+		want := stKey(st, merr)
+		for k := 0; k < 3; k++ {
+			rm, err := SUTResolve(pc, u.Suffix, ops, r.Perm(len(ops)))
+			if got := rmKey(rm, err); got != want {
+				c.Violation(fmt.Sprintf("C02 the earliest operation for a commitment is anchored outside its anchoring window, so the next one wins - the library decides otherwise: ops=[%s] (MaxOperationTimeDelta %d)\n   model:   %s\n   library: %s", histString(ops), D, want, got),
+					map[string]interface{}{"suffix": u.Suffix, "ops": replayOps(ops), "model": want, "library": got})
+				return
+			}
+		}
+		c.Count("competitions_with_an_early_competitor_outside_its_window")
+		c.Distinct("c02w|" + histString(ops))
 	})
 }
